@@ -46,13 +46,7 @@ func fnIn(fn *ssa.Function, set ...*ssa.Function) bool {
 
 // pkgOf returns the module-relative package path of fn.
 func pkgOf(fn *ssa.Function) string {
-	for fn.Parent() != nil {
-		fn = fn.Parent()
-	}
-	if fn.Pkg == nil {
-		return ""
-	}
-	return fn.Pkg.Pkg.Path()
+	return kit.FnPkgPath(fn)
 }
 
 func inPkg(fn *ssa.Function, c *kit.Ctx, rel string) bool {
